@@ -589,8 +589,10 @@ def gen_tree(rng, depth=None, max_depth=5, max_top=3, max_children=3,
 PROB_ITERS = [1, 2, 3, 7, 10, 32, 64, 96, 100, 160]
 
 
-def gen_prob(rng):
+def gen_prob(rng, ints=False):
     r = rng.random()
+    if r < 0.03 and ints:
+        return rng.choice([1, 0])       # JSON integers
     if r < 0.15:
         return 1.0
     if r < 0.55:
@@ -605,8 +607,12 @@ def gen_prob(rng):
     return rng.random()
 
 
-def gen_corr(rng):
+def gen_corr(rng, ints=False):
     r = rng.random()
+    if r < 0.02:
+        return float('nan')     # a constant expression vector
+    if r < 0.04 and ints:
+        return rng.choice([1, 0, -1])   # JSON integers
     if r < 0.1:
         return rng.choice([-1e-5, -0.00005, -0.03125, 0.03125, -1.0, 1.0,
                            0.0, -0.99995, 1.0000000000000002])
@@ -656,9 +662,12 @@ def gen_blob(rng, tree=None, n_cells=None, n_runners=None, inferred=None,
                 k = rng.randint(0, min(n_runners, len(nodes)))
                 lr['runner_up_assignment'] = [rng.choice(nodes)
                                               for _ in range(k)]
-                lr['runner_up_correlation'] = [gen_corr(rng)
+                # (integers only here: the confidence columns of a real
+                # output are always floats, and pandas prints an all-int
+                # column without float_format)
+                lr['runner_up_correlation'] = [gen_corr(rng, ints=True)
                                                for _ in range(k)]
-                lr['runner_up_probability'] = [gen_prob(rng)
+                lr['runner_up_probability'] = [gen_prob(rng, ints=True)
                                                for _ in range(k)]
             lr['aggregate_probability'] = agg
             lr['directly_assigned'] = lv not in inferred
